@@ -100,6 +100,26 @@ class Run:
             steps.append(st)
         return steps
 
+    def testing_predicates(self, ms):
+        """What sismic.testing says about a returned MacroStep (C19)."""
+        from sismic import testing
+        names = [n for n in self.ids if n not in self.host_only]
+        evs = sorted(set(self.c['events']) | {t['ev'] for t in self.c['trans'] if t['ev']} | {1, 2, 3})
+        fir = []
+        for e in evs:
+            nm = realize.ev_name(e)
+            if testing.event_is_fired(ms, nm):
+                fir.append([e, 0])
+            for v in (7,):
+                if testing.event_is_fired(ms, nm, {'v': v}):
+                    fir.append([e, v])
+        trs = [realize.tid_of(t) for t in self.sc.transitions if testing.transition_is_processed(ms, t)]
+        return {'ent': sorted(self.ids[n] for n in names if testing.state_is_entered(ms, n)),
+                'exi': sorted(self.ids[n] for n in names if testing.state_is_exited(ms, n)),
+                'fir': fir,
+                'con': [e for e in evs if testing.event_is_consumed(ms, realize.ev_name(e))],
+                'trs': sorted(set(trs))}
+
     def owner_of(self, obj):
         from sismic.model import Transition
         if isinstance(obj, Transition):
@@ -116,7 +136,7 @@ class Run:
              'gv': gv, 'cfail': h.get('cfail', 0), 'mfail': h.get('mfail', 0),
              'clk': it.clock.time, 'pre': self.state(), 'some': False, 'rtime': 0, 'steps': [],
              'exc': '', 'eobj': 0, 'eidx': 0, 'log': [], 'chk': 1,
-             'ign': self.opt['ignore'], 'stale': 0, 'opq': False, 'hasl2': self.listener2 is not None, 'l2': [], 'mt': [],
+             'ign': self.opt['ignore'], 'stale': 0, 'opq': False, 'tp': dict(ent=[], exi=[], fir=[], con=[], trs=[]), 'hasl2': self.listener2 is not None, 'l2': [], 'mt': [],
              'ref': dict(NOREF)}
         if self.broken:
             o['exc'] = self.broken
@@ -144,6 +164,7 @@ class Run:
                     o['some'] = True
                     o['steps'] = self.flat_step(ms)
                     o['rtime'] = ms.time
+                    o['tp'] = self.testing_predicates(ms)
                     self.returned.append((ms, json.dumps(o['steps'])))
                     if len(self.returned) > 6:
                         self.returned.pop(0)
